@@ -14,7 +14,8 @@ from ural.quote import unquote_letters
 
 OBVIOUS_REDIRECTS_RE = re.compile(
     QUERY_VALUE_IN_URL_TEMPLATE
-    % r"(?:redirect(?:_to)?|target|redir|next|link|orig|goto|url|[luq])",
+    # NOTE: the underscore can come escaped ("redirect%5Fto")
+    % r"(?:redirect(?:(?:_|%5F)to)?|target|redir|next|link|orig|goto|url|[luq])",
     # NOTE: ascii letters only ("lin\u212a", with a kelvin sign, is not "link")
     re.I | ASCII,
 )
